@@ -243,7 +243,7 @@ def generic(res, pid, prop_v, corr_runs, oracle_prop, what_for, rule, thorough_r
         report_case(res, pid, trim_case(f), found=True)
     # a broken correspondence: search for a property failure on the disagreeing inputs first
     if mismatches:
-        found_any = bool(oracle_fails)
+        found_any = len(res.violations) > 0
         if oracle_prop and not found_any:
             for m in mismatches[:6]:
                 if "input_hex" in m and "policy" in m:
